@@ -399,11 +399,18 @@ func (n *VNode) Build(o VBuildOpts) (*types.WorkObject, error) {
 	}
 	if len(o.ExtraTxs) > 0 {
 		if err := n.vForeignFix(comb, o.ExtraTxs); err != nil {
-			return nil, fmt.Errorf("foreign assembly: %w", err)
+			return nil, VForeignRefused{err}
 		}
 	}
 	return n.Seal(comb, o.Order, o.Salt)
 }
+
+// VForeignRefused: the real Process refuses the body a foreign miner wanted to assemble (there is no
+// valid block with these transactions on this parent).
+type VForeignRefused struct{ Err error }
+
+func (e VForeignRefused) Error() string { return "foreign assembly refused by Process: " + e.Err.Error() }
+func (e VForeignRefused) Unwrap() error { return e.Err }
 
 var vRemoteLocal = regexp.MustCompile(`^invalid (avgTxFees|totalFees) used \(remote: (\d+) local: (\d+)\)`)
 
